@@ -454,8 +454,10 @@ def main(argv=None):
             "known_findings_reproduced": len(known_lines),
         }
         if hasattr(mod, "EXHAUSTIVE_NOTE") and stats.exhaustive_points:
-            cov["exhaustive"] = True
-            cov["exhaustive_note"] = mod.EXHAUSTIVE_NOTE
+            # only the named finite sub-space is enumerated completely; the rest of the domain is sampled
+            cov["exhaustive"] = False
+            cov["exhaustive_subspace"] = {"points": stats.exhaustive_points, "what": mod.EXHAUSTIVE_NOTE,
+                                          "complete": True}
         ev = {
             "property_id": pid, "tier": args.tier, "seed": seed, "level": mod.LEVEL,
             "coverage": cov, "assumptions": list(mod.ASSUMPTIONS), "wall_s": round(wall, 2),
